@@ -669,12 +669,16 @@ func runC04(c *Ctx) error {
 		return eerr
 	}
 	// random: forks of several depths, several stale branches, orphan chains (also parent arriving later),
-	// reorganisations back and forth - the C01 generator restricted to positive work
+	// reorganisations back and forth - the C01 generator; three quarters positive work only, one quarter with zero-work headers
 	n := c.Pick(150, 1500)
 	for i := 0; i < n; i++ {
 		o := GenOpts{N: 3 + c.Rng.Intn(c.Pick(14, 26)), PUnknown: 0.1, PLate: 0.12, PDup: 0.05, PForbidden: 0.1, Positive: true, Deep: i%2 == 0}
 		if i%5 == 4 {
 			o.PUnknown, o.PLate = 0.25, 0.3
+		}
+		if i%4 == 3 {
+			// any work: zero-work headers too (the _any_work theorems; the C01 model is faithful for them)
+			o.Positive, o.ZeroWork = false, true
 		}
 		if err := doHistory(GenHistory(c.Rng, o), "random"); err != nil {
 			return err
